@@ -48,6 +48,8 @@ def _rot24():
 
 ROT24 = _rot24()
 ROT24_F = np.array(ROT24, dtype=np.float64)
+# the full symmetry group of the cube: indices 0..23 proper, 24..47 = -g (the improper elements)
+OCT48_F = np.concatenate([ROT24_F, -ROT24_F])
 
 
 def rotate_points(points, rot, pivot=None):
